@@ -117,8 +117,12 @@ class FastaIndex:
         idx_dict = {}
         with self.fai_file.open() as idx:
             for line in idx:
+                # Columns are tab separated. Splitting on any whitespace would
+                # break up names containing characters such as a no-break
+                # space, which are whitespace in `str` but not in the `bytes`
+                # the name was parsed from.
                 name, length, file_offset, residues_per_line, max_line_length = (
-                    line.split()
+                    line.rstrip("\n").split("\t")
                 )
                 idx_dict[name] = FastaInfo(
                     length,
